@@ -135,6 +135,10 @@ func edgeCav(r *rng.R, depth int) m.Cav {
 	return randCav(r, depth, now)
 }
 
+// mpExoticKeys lets randMsgpack use map keys that Go cannot hash (bin, array) or that are unusual (int, nil);
+// only the hostile stream turns it on (an unregistered caveat with such a body is refused at decode time)
+var mpExoticKeys bool
+
 // randMsgpack: one well-formed msgpack value (any family, including non-canonical widths)
 func randMsgpack(r *rng.R, depth int) []byte {
 	be := func(n uint64, k int) []byte {
@@ -194,7 +198,24 @@ func randMsgpack(r *rng.R, depth int) []byte {
 		n := r.Intn(3)
 		b := []byte{byte(0x80 + n)}
 		for i := 0; i < n; i++ {
-			b = append(b, append([]byte{0xa1, byte('a' + i)}, randMsgpack(r, depth-1)...)...)
+			var key []byte
+			kk := 7
+			if mpExoticKeys {
+				kk = r.Intn(8)
+			}
+			switch kk {
+			case 0:
+				key = []byte{0xc4, 0x02, 'a', byte('b' + i)} // bin key
+			case 1:
+				key = []byte{byte(i + 1)} // integer key
+			case 2:
+				key = []byte{0x91, byte(i)} // array key
+			case 3:
+				key = []byte{0xc0} // nil key
+			default:
+				key = []byte{0xa1, byte('a' + i)}
+			}
+			b = append(b, append(key, randMsgpack(r, depth-1)...)...)
 		}
 		return b
 	}
@@ -295,8 +316,19 @@ func genC11(c *ctx) {
 		kid, rnd, tail := r.Bytes(rng.Pick(r, []int{0, 3, 40})), r.Bytes(16), r.Bytes(32)
 		tok := &macaroon.Macaroon{Nonce: macaroon.VerifNonce(kid, rnd, proof, int(ver)), Location: edgeStr(r), UnsafeCaveats: *gs, Tail: tail}
 		tb, terr := macaroon.VerifEncode(tok)
-		st.Add(&cs.Case{Coq: coqw.App("KEncTok", obCoq(&kid), obCoq(&rnd), coqw.Bool(proof), coqw.N(ver), coqw.Str(tok.Location), m.CavsCoq(set), obCoq(&tail), coqw.Bool(terr == nil), coqw.Packed(tb)),
-			Desc: map[string]any{"op": "encode token", "ncav": len(set), "len": len(tb)}, Class: "enctok", Nontrivial: true})
+		tcase := &cs.Case{Coq: coqw.App("KEncTok", obCoq(&kid), obCoq(&rnd), coqw.Bool(proof), coqw.N(ver), coqw.Str(tok.Location), m.CavsCoq(set), obCoq(&tail), coqw.Bool(terr == nil), coqw.Packed(tb)),
+			Desc: map[string]any{"op": "encode token", "ncav": len(set), "len": len(tb), "nonce_version": ver}, Class: "enctok", Nontrivial: true}
+		// oracle: decoding the wire token and re-encoding it reproduces the bytes (both nonce formats), and the nonce re-encodes to its own bytes
+		if terr == nil {
+			if dm, derr := macaroon.Decode(tb); derr != nil {
+				tcase.OracleFail = "encoded token does not decode: " + derr.Error()
+			} else if re, rerr := macaroon.VerifEncode(dm); rerr != nil || !bytes.Equal(re, tb) {
+				tcase.OracleFail = fmt.Sprintf("decode then re-encode of a version-%d-nonce token changes the bytes", ver)
+			} else if nb := dm.Nonce.MustEncode(); !bytes.Equal(nb, tok.Nonce.MustEncode()) {
+				tcase.OracleFail = fmt.Sprintf("decoded nonce re-encodes differently (version %d)", ver)
+			}
+		}
+		st.Add(tcase)
 	}
 	// Skip on well-formed and damaged msgpack values
 	nk := 400
@@ -431,6 +463,7 @@ func exerciseToken(b []byte) {
 	mm.ThirdPartyTickets()
 	mm.Verify(macaroon.NewSigningKey(), [][]byte{b}, nil)
 	mm.Add(&macaroon.ValidityWindow{NotBefore: 1, NotAfter: 2})
+	mm.Add3P(macaroon.NewEncryptionKey(), "https://tp.test")
 	mm.Encode()
 	mm.String()
 	mm.Clone()
@@ -472,7 +505,7 @@ func genC12(c *ctx) {
 		wire, _ := mm.Encode()
 		var input []byte
 		kind := ""
-		switch r.Intn(9) {
+		switch r.Intn(10) {
 		case 0: // byte mutation
 			input = append([]byte{}, wire...)
 			for k := 1 + r.Intn(3); k > 0; k-- {
@@ -496,11 +529,13 @@ func genC12(c *ctx) {
 			}
 			kind = "deep-nesting"
 		case 4: // caveat set with unknown types and arbitrary bodies
+			mpExoticKeys = true
 			input = []byte{0x94}
 			input = append(input, mpUint(uint64(200+r.Intn(3)))...)
 			input = append(input, randMsgpack(r, 4)...)
 			input = append(input, mpUint(uint64(r.Intn(32)))...)
 			input = append(input, randMsgpack(r, 3)...)
+			mpExoticKeys = false
 			kind = "unknown-and-mistyped"
 		case 5: // truncation
 			input = wire[:r.Intn(len(wire))]
@@ -511,6 +546,17 @@ func genC12(c *ctx) {
 		case 7: // the recorded crashers
 			input = rng.Pick(r, [][]byte{{0x92, 0x0d, 0x92, 0xc0, 0x00}, {0x92, 0xcc, 0xc8, 0x81, 0x91, 0x01, 0x01}, {0xdd, 0x0f, 0xff, 0xff, 0xfe}, {0x92, 0xcc, 0xc8, 0xc0}})
 			kind = "corpus"
+		case 8: // a registered map- or slice-typed caveat whose length prefix announces far more entries than follow
+			ty := rng.Pick(r, []byte{2, 3, 5, 6, 7, 14, 16, 27, 28, 29})
+			hdr := rng.Pick(r, [][]byte{{0xdf, 0x00, 0x10, 0x00, 0x00}, {0xdf, 0x7f, 0xff, 0xff, 0xff}, {0xde, 0xff, 0xff}, {0xdd, 0x00, 0x20, 0x00, 0x00}, {0xdc, 0xff, 0xff}})
+			input = append([]byte{0x92, ty, 0x91}, hdr...)
+			if ty == 27 {
+				input = append([]byte{0x92, ty}, hdr...)
+			}
+			if r.Bool() { // nested in a conditional caveat
+				input = append(append([]byte{0x92, 0x0d, 0x92}, input...), 0x00)
+			}
+			kind = "typed-oversized-length"
 		default: // mistyped field: splice a random msgpack value over a field
 			input = append([]byte{}, wire...)
 			p := r.Intn(len(input))
@@ -518,6 +564,12 @@ func genC12(c *ctx) {
 			kind = "mistyped"
 		}
 		in := input
+		// decoding alone (where wire lengths can drive pre-allocation) gets a tight bound
+		dres := measure(func() {
+			macaroon.Decode(in)
+			macaroon.DecodeCaveats(in)
+			macaroon.DecodeNonce(in)
+		})
 		res := measure(func() {
 			exerciseToken(in)
 			set, err := macaroon.DecodeCaveats(in)
@@ -529,7 +581,13 @@ func genC12(c *ctx) {
 		})
 		bound := uint64(256*len(input)) + 64<<20
 		fail := ""
-		if res.panicked != "" {
+		dbound := uint64(64*len(input)) + 8<<20
+		if dres.panicked != "" {
+			fail = "panic while decoding: " + dres.panicked
+			panics++
+		} else if dres.alloc > dbound {
+			fail = fmt.Sprintf("decoding allocated %d bytes for a %d-byte input (bound %d)", dres.alloc, len(input), dbound)
+		} else if res.panicked != "" {
 			fail = "panic: " + res.panicked
 			panics++
 		} else if res.alloc > bound {
